@@ -1,4 +1,5 @@
 import Tumfl.Props.C04
+import Tumfl.Props.C04Faithful
 #print axioms Tumfl.Props.C12_wrong_args_stmt
 #print axioms Tumfl.Props.C12_wrong_args_expr
 #print axioms Tumfl.Props.C12_missing_stmt
@@ -9,3 +10,6 @@ import Tumfl.Props.C04
 #print axioms Tumfl.Props.C12_stmt_cycles_terminate
 #print axioms Tumfl.Props.C12_cycle_example
 #print axioms Tumfl.Props.C04_terminates
+#print axioms Tumfl.Props.C12_nothing_left
+#print axioms Tumfl.Props.C12_ok_no_bad_require
+#print axioms Tumfl.Props.C04_faithful
